@@ -171,6 +171,18 @@ class Check(PropertyCheck):
             s = sw + ashref.wire(("DATA", 0, 0, 0, b"next"))
             for mode in ("one", "bytes", "rand"):
                 cases.append(cut(s, rng, mode))
+        # reserved bytes that take effect at once (SUBSTITUTE, XON / XOFF) arriving in reads WITHOUT a flag, followed by more
+        # than a buffer's worth of flag-free bytes in flag-free reads, then the flag: the residue the reference keeps is tiny
+        good = ashref.wire(("DATA", 0, 0, 0, b"kept"))
+        for chunk in (64, 300, 700):
+            junk = bytes(0x41 + (i % 20) for i in range(1300))
+            s = bytes([0x18]) + junk + bytes([0x7E]) + good
+            cases.append([s[:1]] + [junk[i:i + chunk] for i in range(0, len(junk), chunk)] + [bytes([0x7E]) + good])
+            cases.append([b"\x30\x31" + s[:1] + junk[:10]] + [junk[i:i + chunk] for i in range(10, len(junk), chunk)] + [bytes([0x7E])] + [good])
+            half = len(good) // 2
+            xs = bytes([0x11, 0x13]) * 600
+            cases.append([good[:half]] + [xs[i:i + chunk] for i in range(0, len(xs), chunk)] + [good[half:]])
+            cases.append([good[:half] + xs[:5]] + [xs[i:i + chunk] for i in range(5, len(xs), chunk)] + [good[half:-1], good[-1:]])
         # reads larger than the receive buffer that contain complete frames
         for nfr in ([12, 30] if tier == "quick" else [12, 20, 30, 60, 100]):
             fr = [ashref.wire(("DATA", k % 8, 0, 0, bytes([k]) + bytes(rng.randrange(256) for _ in range(90)))) for k in range(nfr)]
